@@ -8,6 +8,7 @@
 #include "nmtools/utility/fwd.hpp"
 #include "nmtools/utility/to_string/to_string.hpp"
 #include "nmtools/utility/as_static.hpp"
+#include "nmtools/utility/verif_index.hpp"
 
 namespace nmtools::args
 {
@@ -196,12 +197,14 @@ namespace nmtools::view
         static constexpr auto get_element(const m_array_type& array, [[maybe_unused]] const indices_type& indices)
         {
             if constexpr (meta::is_pointer_v<m_array_type>) {
+                NMTOOLS_VERIF_EVENT(verif::check_indices(verif::VIEW_INDEX,indices,nmtools::shape(*array)));
                 return apply_at(*array,indices);
             } else if constexpr (is_none_v<indices_type>) {
                 static_assert( meta::is_num_v<m_array_type>
                     , "invalid source array for indexing view" );
                 return array;
             } else {
+                NMTOOLS_VERIF_EVENT(verif::check_indices(verif::VIEW_INDEX,indices,nmtools::shape(array)));
                 return apply_at(array,indices);
             }
         }
